@@ -176,6 +176,10 @@ def source_b(case):
             fl = '#[typeshare(serialized_as = "String")] #[serde(flatten)]'
         elif merged == "default_too":
             fl = "#[serde(default, flatten)]"
+        elif merged == "second_attr_after_default":
+            fl = "#[serde(default)] #[serde(flatten)]"
+        elif merged == "second_attr_after_rename":
+            fl = '#[serde(rename = "x")] #[doc = "d"] #[serde(flatten)]'
         if where == "struct":
             return "#[typeshare]\npub struct Outer { pub keep: String, %s %s pub inner: Inner }\n" % (skip, fl)
         return '#[typeshare]\n#[serde(tag = "t", content = "c")]\npub enum Outer { Keep(String), Bad { keep: String, %s %s inner: Inner } }\n' % (skip, fl)
@@ -244,7 +248,7 @@ def b_cases(tier):
     out = enum_cases(2 if tier == "quick" else 3)
     out += [("tuple_struct", n) for n in (1, 2, 3)]
     out += [("tuple_inner_skip", w, m, f) for w in ("struct", "variant") for m in ("#[serde(skip)]", "#[typeshare(skip)]", "#[serde(skip_serializing)]") for f in (False, True)]
-    out += [("flatten", w, s, m) for w in ("struct", "variant") for s in ("", "#[serde(skip)]", "#[typeshare(skip)]") for m in (False, True, "serialized_as_after", "serialized_as_before", "default_too")]
+    out += [("flatten", w, s, m) for w in ("struct", "variant") for s in ("", "#[serde(skip)]", "#[typeshare(skip)]") for m in (False, True, "serialized_as_after", "serialized_as_before", "default_too", "second_attr_after_default", "second_attr_after_rename")]
     out += [("const", e, t, v) for e, t, v in CONSTS]
     return out
 
